@@ -31,8 +31,10 @@ func (rs References) GetReferences(table, uuid string) References {
 		if spec.ToTable != table {
 			continue
 		}
-		if _, ok := values[uuid]; ok {
-			refs[spec] = Reference{uuid: values[uuid]}
+		if from, ok := values[uuid]; ok {
+			// hand out a copy: callers compute differences in place, and a
+			// transaction that is later rejected must not alter the index
+			refs[spec] = Reference{uuid: append([]string(nil), from...)}
 		}
 	}
 	return refs
